@@ -87,6 +87,7 @@ func (l *Limiter) Run(input interface{}) interface{} {
 		}
 		l.Unlock()
 	}
+	verifYield("limiter.afterLookup", input)
 	return l.getOutput(t)
 }
 
